@@ -45,6 +45,8 @@ def main() -> int:
         import logging
 
         import primaite  # noqa: F401
+        import primaite.game.game  # noqa: F401  (loads every simulator module, so entropy.install() can patch them all)
+        import primaite.session.environment  # noqa: F401
 
         if alt and not primaite.__file__.startswith(os.path.abspath(alt)):
             print(f"harness: VERIF_REPO set but primaite imported from {primaite.__file__}", file=sys.stderr)
